@@ -210,7 +210,8 @@ P_TyArraylike == /\ On("TyArraylike") /\ TyAt(AnyCtx)
 StAt(ctxs) == At("Stmt") /\ Top.ctx \in ctxs
 AnySt == {"seq", "then", "else"}
 RefT(a, c) == Amps(a.addr) \o <<TI(a.base)>> \o Rep(a.nsteps, StepS(c))
-ArgsT(na, c) == <<TP("(")>> \o SepList(na, E(0, c), TP(",")) \o <<TP(")")>>
+\* (a trailing comma after the last argument: examples/wasm4/write_with_custom_font.pn)
+ArgsT(na, c, tc) == <<TP("(")>> \o SepList(na, E(0, c), TP(",")) \o TC(tc) \o <<TP(")")>>
 
 P_Var == /\ On("Var") /\ StAt({"seq"})
          /\ \E a \in Cand("var", [k : {"var"}, x : VarNames, hasty : BOOLEAN, hase : BOOLEAN]) :
@@ -222,12 +223,14 @@ P_Set == /\ On("Set") /\ StAt(AnySt)
               Step(a, RefT(a, FALSE) \o <<TP("="), E(0, FALSE), TP(";")>>)
 P_Call == /\ On("Call") /\ StAt(AnySt)
           /\ \E a \in Cand("call", [k : {"call"}, f : FnNames, na : 0..MaxArgs, builtin : {FALSE}]) :
+             \E tc \in TCs(a.na) :
                /\ ~a.builtin
-               /\ Step(a, <<TI(a.f)>> \o ArgsT(a.na, FALSE) \o <<TP(";")>>)
+               /\ Step(a, <<TI(a.f)>> \o ArgsT(a.na, FALSE, tc) \o <<TP(";")>>)
 P_BCall == /\ On("BCall") /\ StAt(AnySt)
            /\ \E a \in Cand("call", [k : {"call"}, f : Builtins, na : 0..MaxArgs, builtin : {TRUE}]) :
+              \E tc \in TCs(a.na) :
                 /\ a.builtin
-                /\ Step(a, <<T(Bi(a.f))>> \o ArgsT(a.na, FALSE) \o <<TP(";")>>)
+                /\ Step(a, <<T(Bi(a.f))>> \o ArgsT(a.na, FALSE, tc) \o <<TP(";")>>)
 P_Loop == /\ On("Loop") /\ StAt(AnySt)
           /\ \E a \in Cand("loop", {[k |-> "loop"]}) : Step(a, <<TK("loop"), TP(";")>>)
 P_Goto == /\ On("Goto") /\ StAt(AnySt)
@@ -312,12 +315,14 @@ P_Str == /\ On("Str") /\ Lv(6)
                    [i \in 1..Len(l.pieces) |-> T(WithHint(StrTok(l.pieces[i].bytes), l.pieces[i]))])
 P_FCall == /\ On("FCall") /\ Lv(6)
            /\ \E a \in Cand("fcall", [k : {"fcall"}, f : FnNames, na : 0..MaxArgs, builtin : {FALSE}]) :
+              \E tc \in TCs(a.na) :
                 /\ ~a.builtin
-                /\ Step(a, <<TI(a.f)>> \o ArgsT(a.na, C))
+                /\ Step(a, <<TI(a.f)>> \o ArgsT(a.na, C, tc))
 P_BFCall == /\ On("BFCall") /\ Lv(6)
             /\ \E a \in Cand("fcall", [k : {"fcall"}, f : Builtins, na : 0..MaxArgs, builtin : {TRUE}]) :
+               \E tc \in TCs(a.na) :
                  /\ a.builtin
-                 /\ Step(a, <<T(Bi(a.f))>> \o ArgsT(a.na, C))
+                 /\ Step(a, <<T(Bi(a.f))>> \o ArgsT(a.na, C, tc))
 P_Array == /\ On("Array") /\ Lv(6)
            /\ \E a \in Cand("array", [k : {"array"}, n : 0..MaxElems]) :
               \E tc \in TCs(a.n) :
